@@ -11,16 +11,40 @@ TECH_E2 = "explicit-state BFS over API call sequences of the real component, com
 TECH_E3 = "stateless model checking of real threads under a controlled scheduler with preemption bounding"
 TECH_E4 = "bounded exhaustive input enumeration checked against algebraic laws"
 
+NOTE_E1 = ("Trusted: MockProvider as the provider, the harness determinisation layer (virtual clock, counter ids), the "
+           "canonical-key abstraction (audited by one-step bisimulation on sampled merges). Bounded to short histories and "
+           "small alphabets; genuine engine defects already present are listed one history at a time in known_findings.json.")
+
 CHECKS = {
     # id: (engine, technique, level text, level note, design ref)
     "C01": ("seqx", TECH_E1,
             "Every interleaving of user operations, intake steps and sync steps of every history of <=2 user operations "
-            "(16-op alphabet, one- and two-sided) is executed on the real CloudSync over MockProviders; at every quiet "
+            "(27-op alphabet, one- and two-sided) is executed on the real CloudSync over MockProviders; at every quiet "
             "state both trees must be equal modulo .conflicted files, and the fair schedule must reach a quiet state from "
             "every reachable state. This is a coverage statement over schedules that the wall-clock driven tests cannot give.",
-            "Trusted: MockProvider as the provider, the harness determinisation layer (virtual clock, counter ids), the "
-            "canonical-key abstraction (audited by one-step bisimulation on sampled merges). Bounded to short histories, "
-            "small alphabets; known engine defects are listed in known_findings.json.", "5/C01"),
+            NOTE_E1, "5/C01"),
+    "C02": ("seqx", TECH_E1,
+            "All 1+1 two-sided histories over a collision alphabet (same-path create/create, edit/edit, edit/delete, "
+            "file-vs-folder) in every interleaving, plus every placement of an unreadable (corrupt) version: at quiet states "
+            "every version a user wrote and no user destroyed exists in some file, conflict losers are kept as .conflicted, "
+            "a corrupt version never appears on the other side.", NOTE_E1, "5/C02"),
+    "C03": ("seqx", TECH_E1,
+            "All one-sided histories (<=2 ops; 3 ops deviation-bounded in thorough) in both directions from three base trees, "
+            "every interleaving: exact mirror at quiet state, no effective engine write on the origin side after any step, "
+            "no mutating call in three further rounds.", NOTE_E1, "5/C03"),
+    "C04": ("seqx", TECH_E1,
+            "All ancestry-disjoint 1+1 pairs of operations from base B2 in every interleaving (2+1 deviation-bounded in "
+            "thorough): both quiet trees equal a reference three-way merge computed on a dict tree.", NOTE_E1, "5/C04"),
+    "C05": ("seqx", TECH_E1,
+            "Conflict shape x content pair x 10 resolver behaviours, both user operations first, then every interleaving of "
+            "engine steps: outcome table of the statement, resolver call count and arguments, and a singleton terminal "
+            "observation per job (schedule independence).", NOTE_E1, "5/C05"),
+    "C19": ("apix", TECH_E2,
+            "Every call sequence up to depth 3 (4 in thorough) over the cache API on colliding paths and ids, for both case "
+            "modes, is executed on the real HierarchicalCache; structural invariants (acyclic, parent links, id map == reachable "
+            "id-bearing nodes, inverse views) and a one-step refinement check against a fact model after every call.",
+            "Trusted: the fact model (what the cache may still claim) in vmc/props/c19.py; bounded depth and alphabet.",
+            "5/C19"),
 }
 
 PENDING = ["C02", "C03", "C04", "C05", "C06", "C07", "C08", "C09", "C10", "C11", "C12", "C13", "C14", "C15", "C16",
